@@ -68,30 +68,32 @@ structure Cfg where
 inductive Err | notFound | chunkMissing | emptyData | tooLarge
   deriving DecidableEq, Repr
 
+deriving instance DecidableEq for Except
+
 /-- number of times key `k` is listed by live artifacts (what `repair` calls `true_refs`) -/
 def occ {K : Type} [DecidableEq K] (k : K) (arts : List (Nat × Art K)) : Nat :=
   (arts.map (fun a => a.2.chunks.count k)).sum
 
 /-! ## chunker -/
 
-/-- `data.chunks(c)`: consecutive pieces of `c` bytes, the last one shorter; none for empty data -/
-def chunks (c : Nat) (d : List Nat) : List (List Nat) :=
-  if _h : c = 0 ∨ d = [] then [] else d.take c :: chunks c (d.drop c)
-termination_by d.length
-decreasing_by
-  have : d ≠ [] := fun e => _h (Or.inr e)
-  have : 0 < d.length := List.length_pos_iff.mpr this
-  simp only [List.length_drop]; omega
+def chunksGo (c : Nat) : Nat → List Nat → List (List Nat)
+  | 0, _ => []
+  | fuel + 1, d => if c = 0 ∨ d = [] then [] else d.take c :: chunksGo c fuel (d.drop c)
+
+/-- `data.chunks(c)`: consecutive pieces of `c` bytes, the last one shorter; none for empty data
+    (the loop runs at most `d.length` times) -/
+def chunks (c : Nat) (d : List Nat) : List (List Nat) := chunksGo c d.length d
+
+def splitGo (c : Nat) : Nat → List Nat → List (List Nat) × List Nat
+  | 0, buf => ([], buf)
+  | fuel + 1, buf =>
+    if c = 0 ∨ buf.length < c then ([], buf)
+    else ((buf.take c) :: (splitGo c fuel (buf.drop c)).1, (splitGo c fuel (buf.drop c)).2)
 
 /-- the writer's `while buffer.len() >= chunk_size { drain(..chunk_size) }` loop:
-    the full chunks cut off the front of the buffer, and what stays buffered -/
-def splitFull (c : Nat) (buf : List Nat) : List (List Nat) × List Nat :=
-  if _h : c = 0 ∨ buf.length < c then ([], buf)
-  else
-    let r := splitFull c (buf.drop c)
-    (buf.take c :: r.1, r.2)
-termination_by buf.length
-decreasing_by simp only [List.length_drop]; omega
+    the full chunks cut off the front of the buffer, and what stays buffered
+    (the loop runs at most `buf.length` times) -/
+def splitFull (c : Nat) (buf : List Nat) : List (List Nat) × List Nat := splitGo c buf.length buf
 
 section
 variable {K : Type} [DecidableEq K] (h : List Nat → K)
@@ -142,10 +144,14 @@ def stream (cfg : Cfg) (t : Nat) (s : State K) (pieces : List (List Nat)) : Stat
 def streamAbandon (cfg : Cfg) (t : Nat) (s : State K) (pieces : List (List Nat)) : State K :=
   (writeAll h cfg.chunkSize t s Writer.new pieces).1
 
+/-- `if let Some(max) = max_artifact_size { if data.len() > max { Err } }` -/
+def tooLarge (cfg : Cfg) (n : Nat) : Bool :=
+  match cfg.maxSize with | some m => decide (n > m) | none => false
+
 /-- `BlobStore::put` -/
 def put (cfg : Cfg) (t : Nat) (s : State K) (d : List Nat) : State K × Except Err Nat :=
   if d = [] then (s, .error .emptyData)
-  else if (match cfg.maxSize with | some m => decide (d.length > m) | none => false) then (s, .error .tooLarge)
+  else if tooLarge cfg d.length then (s, .error .tooLarge)
   else
     let r := stream h cfg t s [d]
     (r.1, .ok r.2)
@@ -221,15 +227,14 @@ structure RepairStats where
   orphansDeleted : Nat
   deriving DecidableEq, Repr
 
-/-- loop body of `integrity::repair` for one chunk record -/
-def repairOne (arts : List (Nat × Art K)) (p : K × CRec) : Option (K × CRec) :=
-  let expected := occ p.1 arts
-  let p' := if p.2.refs ≠ expected then (p.1, { p.2 with refs := expected }) else p
-  if expected = 0 then none else some p'
+/-- phase 2 of `integrity::repair` for one chunk record: `if current_refs != expected_refs { set; put }` -/
+def fixRefs (arts : List (Nat × Art K)) (p : K × CRec) : K × CRec :=
+  if p.2.refs ≠ occ p.1 arts then (p.1, { p.2 with refs := occ p.1 arts }) else p
 
-/-- `integrity::repair`: reset every `_refs` to the true count, delete records with count 0 -/
+/-- `integrity::repair`: reset every `_refs` to the true count (phase 2), delete the records whose
+    true count is 0 (phase 3).  Each iteration touches only its own key. -/
 def repair (s : State K) : State K × RepairStats :=
-  ({ s with chunks := s.chunks.filterMap (repairOne s.arts) },
+  ({ s with chunks := (s.chunks.filter (fun p => decide (occ p.1 s.arts ≠ 0))).map (fixRefs s.arts) },
    { artifactsChecked := s.arts.length, chunksVerified := s.chunks.length,
      refsFixed := (s.chunks.filter (fun p => decide (p.2.refs ≠ occ p.1 s.arts))).length,
      orphansDeleted := (s.chunks.filter (fun p => decide (occ p.1 s.arts = 0))).length })
